@@ -79,7 +79,8 @@ pub fn monitor_c03(made: &Made, l: &mut Local) {
     for (e, o) in trace.obs(chan) {
         let Obs::Resolved(r) = o else { continue };
         let t = e.t;
-        let inst = wire::name(&r.fullname);
+        // the daemon spells names without escapes: compare spellings, not label lists
+        let full = r.fullname.clone();
         let wit = || {
             json!({"scenario": made.desc, "event": format!("{:?}", r), "t_ms": t - crate::world::EPOCH,
                    "trace": scen::witness_window(trace, t.saturating_sub(6000), t, 60)})
@@ -93,11 +94,11 @@ pub fn monitor_c03(made: &Made, l: &mut Local) {
         // S1
         l.act("S1");
         let srv_ok = hist
-            .possibly_live(t, sl, |id| id.rtype == wire::T_SRV && wire::names_eq_exact(&id.name, &inst))
+            .possibly_live(t, sl, |id| id.rtype == wire::T_SRV && wire::dotted(&id.name) == full)
             .any(|(id, _)| matches!(&id.rdata, RData::Srv { port, target, .. } if *port == r.port && wire::dotted(target) == r.host));
         if !srv_ok {
             let ever = hist
-                .lives_of(|id| id.rtype == wire::T_SRV && wire::names_eq_exact(&id.name, &inst))
+                .lives_of(|id| id.rtype == wire::T_SRV && wire::dotted(&id.name) == full)
                 .any(|(id, _)| matches!(&id.rdata, RData::Srv { port, target, .. } if *port == r.port && wire::dotted(target) == r.host));
             l.violate(
                 Violation::new(
@@ -110,7 +111,7 @@ pub fn monitor_c03(made: &Made, l: &mut Local) {
             continue;
         }
         // S2
-        let host_name = wire::name(&r.host);
+        let host_spelled = r.host.to_lowercase();
         let mut bad = None;
         for (ip, ifs) in resolved_addrs(r) {
             l.act("S2");
@@ -125,11 +126,11 @@ pub fn monitor_c03(made: &Made, l: &mut Local) {
             }
             for ifi in ifs.iter() {
                 let ok = hist
-                    .possibly_live(t, sl, |id| (id.rtype == wire::T_A || id.rtype == wire::T_AAAA) && wire::names_eq_nocase(&id.name, &host_name) && id.if_index == Some(*ifi))
+                    .possibly_live(t, sl, |id| (id.rtype == wire::T_A || id.rtype == wire::T_AAAA) && wire::dotted(&id.name).to_lowercase() == host_spelled && id.if_index == Some(*ifi))
                     .any(|(id, _)| matches_ip(id));
                 if !ok {
                     let ever = hist
-                        .lives_of(|id| (id.rtype == wire::T_A || id.rtype == wire::T_AAAA) && wire::names_eq_nocase(&id.name, &host_name))
+                        .lives_of(|id| (id.rtype == wire::T_A || id.rtype == wire::T_AAAA) && wire::dotted(&id.name).to_lowercase() == host_spelled)
                         .any(|(id, _)| matches_ip(id));
                     bad = Some((ip, if ever { "address-from-dead-or-other-interface-record" } else { "address-never-received" }));
                     break;
@@ -151,7 +152,7 @@ pub fn monitor_c03(made: &Made, l: &mut Local) {
         if !got.is_empty() {
             l.act("S3");
             let ok = hist
-                .possibly_live(t, sl, |id| id.rtype == wire::T_TXT && wire::names_eq_exact(&id.name, &inst))
+                .possibly_live(t, sl, |id| id.rtype == wire::T_TXT && wire::dotted(&id.name) == full)
                 .any(|(id, _)| matches!(&id.rdata, RData::Txt(b) if txt_as_crate_decodes(b) == got));
             if !ok {
                 l.violate(
